@@ -101,7 +101,7 @@ def main():
               'against the reference model on both builds; Rust-level round trip of >= 2*10^5 doubles reachable by '
               'arithmetic, bools, nil, undefined and objects through Value in both builds with a shared digest'),
         n_gen_quick=500, n_gen_thorough=9000, cfgs=cfgs,
-        kinds=('numbers', 'core', 'scope', 'classes', 'exc', 'natives', 'alias', 'chan', 'numbers', 'strings'),
+        kinds=('numbers', 'nummaps', 'core', 'scope', 'classes', 'exc', 'natives', 'alias', 'chan', 'numbers', 'strings', 'nummaps'),
         stat_keys=('allocs', 'steps'), requires=[('steps', 100000, 2000000)], timeout=90, post=post,
         extra_sources=native_probe_sources(),
         # a crash of one representation where the other raises an error IS this property's business
